@@ -58,9 +58,9 @@ var pkgNames = map[string]string{
 	"github.com/vektah/gqlparser/v2/ast":                "ast",
 	"github.com/99designs/gqlgen/graphql":               "graphql",
 	"github.com/99designs/gqlgen/graphql/introspection": "introspection",
-	"verifharness/genout/c19lib/errors":                 "errors",
-	"verifharness/genout/c19lib/mylib":                  "mylib",
-	"verifharness/genout/c19lib/v2":                     "deep",
+	"verifharness/harness/c19/lib/errors":                 "errors",
+	"verifharness/harness/c19/lib/mylib":                  "mylib",
+	"verifharness/harness/c19/lib/v2":                     "deep",
 }
 
 func pkgNameOf(path string) string {
